@@ -1866,7 +1866,7 @@ where
             .map(|ttl| now + exp_decrease(ttl, num_beyond_k));
         // The smaller TTL prevails. Only if neither TTL is set is the record
         // stored "forever".
-        record.expires = record.expires.or(expiration).min(expiration);
+        record.expires = earliest_expiry(record.expires, expiration);
 
         if let Some(job) = self.put_record_job.as_mut() {
             // Ignore the record in the next run of the replication
@@ -2183,6 +2183,16 @@ where
         }) {
             handler.on_behaviour_event(event)
         }
+    }
+}
+
+/// The earlier of two optional expiry instants, where `None` means "never expires".
+///
+/// Returns `None` only if neither expiry is set.
+fn earliest_expiry(a: Option<Instant>, b: Option<Instant>) -> Option<Instant> {
+    match (a, b) {
+        (Some(a), Some(b)) => Some(a.min(b)),
+        (a, b) => a.or(b),
     }
 }
 
